@@ -95,7 +95,7 @@ def step (s : Unit) (line : String) : Unit × String :=
       else some w
     match r with
     | none => (s, "fault")
-    | some w => (s, s!"ok n={w.out.length}" ++ String.join (w.out.reverse.map orfStr))
+    | some w => (s, s!"ok n={w.c.out.length}" ++ String.join (w.c.out.reverse.map orfStr))
   else (s, "bad-op")
 
 def main : IO Unit := runDriver () step
